@@ -165,9 +165,13 @@ func (p *vPusher) push(ctx context.Context, req request.Request) error {
 	switch o.code {
 	case 0:
 		p.final(true, false)
+		r.Items = 0 // the destination took the data: counting must have happened before the send
 		return nil
 	case 2:
 		p.final(false, false)
+		if p.calls%2 == 0 { // permanence must be recognised through wrapping (errors.As)
+			return fmt.Errorf("exporting: %w", consumererror.NewPermanent(errors.New("permanent failure")))
+		}
 		return consumererror.NewPermanent(errors.New("permanent failure"))
 	case 3:
 		if !nonFinal {
